@@ -21,6 +21,7 @@ import torch
 
 from vt import nf, symtorch
 from vt.cond import Infeasible
+from vt.stubs import symbolic_factories
 from vt.runner import Ob, Refuted
 from vt.scenario import MkNum, _flat, el, scenario_ob
 from vt.symtorch import ST
@@ -99,11 +100,37 @@ def scn_grad(contract, factory, args, pick=None, extra=None):
                 names += [d.name] if d.shape == () else ["%s[%s]" % (d.name, ",".join(map(str, ix))) for ix in np.ndindex(*d.shape)]
             seen = nf.variables(S_true)
             out, nz = [], 0
+            # numeric pre-check at a point of the current path (40-digit mpmath): a stop-gradient that does NOT cancel makes the symbolic
+            # unwrapping below explode, while the disagreement is plain at any point -> refuted here, replayed on the real autograd
+            from vt.cond import current_path
+            from vt.scenario import find_point, _num_claim_holds
+            import mpmath
+            import random as _random
+            env0 = find_point(mk.decls, list(current_path()) + [c for c in mk.requires if c is not True], _random.Random(1), fns=None)
             for v in names:
                 if v not in seen:
                     continue
                 d_true = nf.diff(S_true, v)
-                d_auto = nf.unwrap(nf.diff(S, v))
+                d_raw = nf.diff(S, v)
+                if env0 is not None:
+                    try:
+                        with mpmath.workdps(40):
+                            va = nf.evaluate(d_raw, env0, {"sg": lambda z: z}, mp=mpmath)
+                            vt = nf.evaluate(d_true, env0, {}, mp=mpmath)
+                            differ = abs(va - vt) > mpmath.mpf(10) ** -20 * max(1, abs(vt))
+                    except Exception:
+                        differ = False
+                    if differ:
+                        confirmed = None
+                        try:
+                            confirmed = any(not _num_claim_holds(cl_, 1e-6) for cl_ in scn(MkNum(env0)))
+                        except Exception:
+                            confirmed = None
+                        raise Refuted("d/d %s: the derivative visible to autograd is %s, the derivative of the reported value is %s at %s"
+                                      % (v, mpmath.nstr(va, 12), mpmath.nstr(vt, 12), env0),
+                                      witness={"variable": v, "env": env0, "autograd_visible": float(va), "true": float(vt)},
+                                      replay={"contract": "C12", "factory": "scn_grad", "args": [contract, factory, list(args), pick], "env": env0}, confirmed=confirmed)
+                d_auto = nf.unwrap(d_raw)
                 out.append(("eq", "d/d %s: autograd-visible = true derivative" % v, [d_auto], [d_true]))
                 if not nf.is_zero(d_true):
                     nz += 1
@@ -125,9 +152,15 @@ def scn_grad(contract, factory, args, pick=None, extra=None):
         val = c[2]
         tot = val.sum() if isinstance(val, torch.Tensor) else sum(val)
         if not isinstance(tot, torch.Tensor) or not tot.requires_grad:
-            return [("eq", "autograd_visible_derivative_is_true_derivative", [0.0], [0.0]), ("true", "value_depends_on_inputs", False, "value does not require grad")]
-        tot.backward()
-        out = []
+            # the picked value is not a torch scalar connected to the leaves in this concrete run (the scenario assembles it from Python floats):
+            # no concrete cross-check for this obligation — a statement about the harness, not about the code, hence no claim
+            return [("eq", "autograd_visible_derivative_is_true_derivative", [0.0], [0.0])]
+        try:
+            tot.backward()
+        except RuntimeError as e:
+            # autograd itself refuses (e.g. a tensor it saved was modified in place): the reported value has no usable gradient
+            return [("must", "autograd_differentiates_the_reported_value", False, "backward() raised RuntimeError: %s" % str(e)[:200])]
+        out = [("must", "autograd_differentiates_the_reported_value", True)]
         h = 1e-6
 
         def f(env):
@@ -222,6 +255,30 @@ def scn_cgd(T):
     return scn
 
 
+def scn_bdsk(T, n0, rho_mode, survival, pieces):
+    """birth-death skyline log density with `pieces` epochs (default equal-width grid, rho = 0 at the inner boundaries) through the real
+    PiecewiseConstantBirthDeath.log_prob: the backward recursion for p_i, A_i, B_i over the epochs runs (it does not for one epoch).
+    Set-up and domain are C09's (contracts.C09._rates/_rho/_heights); the value itself is C09's subject, here only its derivative."""
+    def scn(mk):
+        import contracts.C09 as C09
+        import torchtree.evolution.bdsk as bd
+        lam, mu, psi, A, v = C09._rates(mk)
+        rho, rho_s, rho_pos = C09._rho(mk, rho_mode, lam, A, v)
+        org = mk.real("x0", (1,), lo=0)
+        x0 = el(org, (0,))
+        C09._float_guard(mk, el(A, (0,)), x0)
+        nh, ys, hs, ysl, hsl = C09._heights(mk, T, n0, below=x0)
+        for i in range(1, pieces):
+            for z in hsl + ysl:
+                C09._distinct(mk, x0 * i / pieces, x0 - z)
+        rep = lambda t: C09._cat(*([t] * pieces))
+        rho_split = C09._cat(torch.zeros(pieces - 1), rho)
+        with symbolic_factories(bd, extra=C09.EXTRA, enabled=mk.symbolic):
+            val = bd.PiecewiseConstantBirthDeath(rep(lam), rep(mu), rep(psi), rho=rho_split, origin=org, survival=survival).log_prob(nh)
+        return [("eq", "log_density", val, val)]
+    return scn
+
+
 def obligations(tier, seed):
     import ast
     obs = []
@@ -263,6 +320,9 @@ def obligations(tier, seed):
                 continue   # hundreds of paths x per-variable derivatives of log-ratio terms: covered at T=2
             a = (model, T, "serial", (), ()) + ((grid,) if grid else ())
             add("C12.coalescent.%s[T=%d]" % (model, T), "C08", "scn_coalescent", a, "log_prob_is_kingman")
+    # birth-death skyline: one epoch (closed form) and two epochs (the p/A/B recursion over epochs runs)
+    add("C12.bdsk.single_epoch[T=2]", "C09", "scn_density", (2, 1, "sym", True), "log_density")
+    add("C12.bdsk.two_epochs[T=2]", "C12", "scn_bdsk", (2, 1, "sym", True, 2), "log_density", timeout=900)
     # GMRF family
     add("C12.gmrf.plain[N=5]", "C20", "scn_gmrf", ("plain", 5, ()), "density_is_quadratic_form_of_published_precision")
     add("C12.gmrf.weighted[N=4]", "C20", "scn_gmrf", ("weighted", 4, ()), "density_is_quadratic_form_of_published_precision")
